@@ -148,7 +148,7 @@ func symOf(v ssa.Value, env provEnv) *sx {
 		}
 		name := calleeName(&x.Call)
 		if cal := staticCallee(&x.Call); cal != nil {
-			name = cal.Name()
+			name = fname(cal)
 		}
 		e := &sx{op: "call", s: name, v: x}
 		for _, a := range x.Call.Args {
@@ -214,10 +214,10 @@ func inlineCall(call *ssa.Call, result int, env provEnv) *sx {
 	if len(rets) == 1 {
 		e := symOf(rets[0].Results[result], e2)
 		cp := *e
-		cp.inl = cal.Name()
+		cp.inl = fname(cal)
 		return &cp
 	}
-	e := &sx{op: "phi", v: call, inl: cal.Name()}
+	e := &sx{op: "phi", v: call, inl: fname(cal)}
 	for _, r := range rets {
 		e.args = append(e.args, symOf(r.Results[result], e2))
 	}
